@@ -36,6 +36,7 @@ REWRITE_CLASSES = {
     'V-FNPTR': 'function-pointer parameter typed as `impl Fn + Copy`; constructor paths passed for it written as closures',
     'V-HOIST': 'function-local item declared outside the function, same text',
     'V-COMB': 'std combinator replaced by its definition',
+    'V-PAT': '`Some(&x) => E` -> `Some(__p_x) => { let x = *__p_x; E }` (Verus has no ref patterns; E verbatim)',
     'V-ITER': 'declared desugaring of an iterator adapter / for-loop over a collection into an index loop (listed verbatim)',
 }
 
